@@ -167,7 +167,7 @@ def prop(r):
 
 @st.composite
 def strat(draw, tier):
-    r = draw(G.program(tier))
+    r = draw(G.program(tier, partial=draw(st.booleans())))
     r["post"] = draw(st.sampled_from(["trace", "dedup", "dedup"]))
     r["hoist"] = draw(st.booleans())
     r["prethread"] = draw(st.lists(st.booleans(), min_size=0, max_size=4))
